@@ -190,6 +190,10 @@ func checkC01(c *Ctx) {
 			add("G10-control-char-in-early-buffer", d)
 		}
 	}
+	// G15 dense documents whose last index buffer is over-full (> 1408+64 entries)
+	for _, d := range overfullLastBufferDocs() {
+		add("G15-overfull-last-index-buffer", d)
+	}
 	// G14 every escape kind with its backslash at every offset of the 32-byte windows the
 	// string kernels walk (a valid string must not be rejected for where its escape falls)
 	for _, d := range escapeOffsetDocs(r, c.Thorough()) {
